@@ -151,6 +151,10 @@ def main():
 
     base_bin = _link(dpl, PL, os.path.join(src, "registers.c"), "registers.c", scratch, src, "base")
     base = [key(r) for r in common.run_lines(base_bin, items, tag="cm-base")]
+    prnd = random.Random(99)
+    pidx = sorted(prnd.sample(range(len(items)), 400))
+    probe_items = [items[i] for i in pidx]
+    probe_base = [base[i] for i in pidx]
     report = {"corpus": len(items), "mutants": 0, "not_compiling": 0, "noticed": 0, "noticed_by_sanitizer": 0, "silent": [], "per_file": {}}
     rnd = random.Random(4242)
     for f in files:
@@ -172,8 +176,12 @@ def main():
                 st["not_compiling"] += 1
                 continue
             st["mutants"] += 1
-            res = common.run_lines(binp, items, tag="cm-m", nproc=16)
-            diff = sum(1 for b, r in zip(base, res) if b != key(r))
+            # a small probe first (most mutants show at once; a mutant that hangs on every line must not cost 20 s per line)
+            res = common.run_lines(binp, probe_items, tag="cm-p", nproc=16, prelude=["watchdog 2"])
+            diff = sum(1 for b, r in zip(probe_base, res) if b != key(r))
+            if not diff:
+                res = common.run_lines(binp, items, tag="cm-m", nproc=16, prelude=["watchdog 5"])
+                diff = sum(1 for b, r in zip(base, res) if b != key(r))
             desc = "%s:%d %s(): %s   | %s" % (f, i + 1, func, what, ml.strip()[:110])
             if diff:
                 st["noticed"] += 1
@@ -182,7 +190,7 @@ def main():
                 if stage2:
                     b2 = _link(dsan, SAN, tmpc, f, scratch, src, "san")
                     if b2:
-                        r2 = common.run_lines(b2, items, tag="cm-s", nproc=16)
+                        r2 = common.run_lines(b2, items, tag="cm-s", nproc=16, prelude=["watchdog 5"])
                         hit = any("crash" in r for r in r2)
                 if hit:
                     st["noticed_by_sanitizer"] += 1
